@@ -1,13 +1,33 @@
 """E1 -- stream-protocol conformance of encode/decode pairs (PER / UPER / OER type classes).
 
-For every assignment of truth values to the CONFIG atoms of a class (conditions built only from
-self.* attributes and constants) the engine enumerates the token paths of encode and of decode
-over the Encoder/Decoder vocabulary and requires  Paths(encode) <= Paths(decode).
-See DESIGN.md section 3 (E1).  Nothing of the repository is executed."""
+For every consistent assignment of truth values to the CONFIG atoms of a class (conditions built only
+from self.* attributes, module constants and literals) the engine enumerates the token paths of
+encode and of decode over the Encoder/Decoder vocabulary and requires  Paths(encode) <= Paths(decode).
+
+The enumeration is an abstract interpretation of the method bodies (nothing of the repository is
+executed).  Abstract values:
+
+  ('const', v)            a literal
+  ('cfg', text)           an expression over self.* / module constants / literals (canonical text,
+                          local aliases substituted, so renaming or hoisting a local changes nothing)
+  ('bit', uid, neg)       the value of one particular read_bit() of this path: branching on it fixes
+                          the value of that BIT token on the path
+  ('form', formula)       a boolean combination of config atoms / bits / unknowns
+  ('opaque', 'read'|'data'|...)   run-time data
+  ('stream',) ('sub',)    the encoder/decoder, a fresh sub-encoder
+  ('tuple', [values])
+
+`and` / `or` / conditional expressions short-circuit exactly as Python does, calls emit their tokens in
+evaluation order wherever they occur (statement, test, argument, comprehension), helpers taking the
+stream (methods of the class, its bases, or module functions) are inlined with their arguments bound.
+Atoms that compare the same configuration term with integer literals are enumerated over consistent
+value regions only (so `x > 255` / `x == 256` / `x <= 65536` are never assigned contradictory values).
+See DESIGN.md section 3 (E1)."""
 import ast
+import builtins
 import itertools
 
-from .model import AnalysisError, Model
+from .model import AnalysisError, Model, ClassInfo
 
 
 def find_method(cls, name):
@@ -30,7 +50,8 @@ def align_is_noop(cls, model):
             return False
         f = r[1]
         body = [s for s in f.body if not (isinstance(s, ast.Expr) and isinstance(s.value, ast.Constant))]
-        out[side] = all(isinstance(s, ast.Pass) for s in body)
+        out[side] = all(isinstance(s, ast.Pass) for s in body) or \
+            (len(body) == 1 and isinstance(body[0], ast.Return) and (body[0].value is None or isinstance(body[0].value, ast.Constant)))
     return all(out.values())
 
 
@@ -52,81 +73,176 @@ DEC = {
 }
 ZERO = {'offset', 'set_bit', 'reset', 'are_all_bits_zero', 'number_of_bytes', 'as_bytearray',
         'peek_bit', 'clear_bit', 'number_of_read_bits'}
+CFG_BUILTINS = {'len', 'isinstance', 'int', 'max', 'min', 'bool', 'abs', 'sorted', 'list', 'tuple', 'range', 'enumerate', 'reversed'}
+
+CONST, CFG, BIT, FORM, OPAQUE, STREAM, SUB, TUPLE, SELF = 'const', 'cfg', 'bit', 'form', 'opaque', 'stream', 'sub', 'tuple', 'self'
+
 
 def u(n):
     return ast.unparse(n)
 
-def is_cfg_expr(e, env):
-    """True if expr mentions only self.* attrs / constants / cfg locals."""
-    for n in ast.walk(e):
-        if isinstance(n, ast.Name):
-            if n.id in ('self', 'None', 'True', 'False', 'len', 'isinstance', 'AdditionGroup', 'int', 'max', 'min'):
-                continue
-            k = env.get(n.id)
-            if isinstance(k, tuple) and k[0] == 'const':
-                continue
-            if k == 'cfg':
-                continue
-            return False
-        if isinstance(n, ast.Call):
-            f = n.func
-            if isinstance(f, ast.Name) and f.id in ('len', 'isinstance', 'int', 'max', 'min'):
-                continue
-            return False
-    return True
 
-def width_text(e, env, mult=1):
-    if e is None:
+def is_cfgish(v):
+    return v[0] in (CONST, CFG, SELF)
+
+
+def vtext(v):
+    """Canonical text of a configuration-like value, or None."""
+    if v[0] == CONST:
+        return repr(v[1])
+    if v[0] == CFG:
+        return v[1]
+    if v[0] == SELF:
+        return 'self'
+    if v[0] == TUPLE:
+        ts = [vtext(x) for x in v[1]]
+        if all(t is not None for t in ts):
+            return '(%s)' % ', '.join(ts) if len(ts) != 1 else '(%s,)' % ts[0]
+    return None
+
+
+def wtext(v, mult=1):
+    t = vtext(v)
+    if t is None:
         return '*'
-    if is_cfg_expr(e, env):
-        t = u(e)
-        if isinstance(e, ast.Name) and ('~txt~' + e.id) in env:
-            t = env['~txt~' + e.id]      # a local alias of a configuration expression
-        if mult != 1:
-            return '%d*(%s)' % (mult, t)
-        return t
-    return '*'
+    if mult != 1:
+        if v[0] == CONST and isinstance(v[1], int):
+            return repr(mult * v[1])
+        return '%d*(%s)' % (mult, t)
+    return t
 
-# formula: ('atom', text) | ('not', f) | ('and', [f]) | ('or', [f]) | ('nondet',) | ('const', bool)
-def formula(e, env):
-    if isinstance(e, ast.BoolOp):
-        parts = [formula(v, env) for v in e.values]
-        return ('and' if isinstance(e.op, ast.And) else 'or', parts)
-    if isinstance(e, ast.UnaryOp) and isinstance(e.op, ast.Not):
-        return ('not', formula(e.operand, env))
-    if isinstance(e, ast.Constant):
-        return ('const', bool(e.value))
-    if isinstance(e, ast.Name) and isinstance(env.get(e.id), tuple) and env[e.id][0] == 'const':
-        return ('const', bool(env[e.id][1]))
-    if isinstance(e, ast.Name) and isinstance(env.get(e.id), tuple) and env[e.id][0] == 'bitvar':
-        return ('bitvar', env[e.id][1])
-    if isinstance(e, ast.Compare) and len(e.ops) == 1 and isinstance(e.ops[0], (ast.Is, ast.IsNot, ast.Eq, ast.NotEq)) \
-            and isinstance(e.left, ast.Name) and isinstance(e.comparators[0], ast.Constant):
-        k = env.get(e.left.id)
-        cv = e.comparators[0].value
-        res = None
-        if isinstance(k, tuple) and k[0] == 'const':
-            if isinstance(e.ops[0], (ast.Is, ast.IsNot)):
-                res = (k[1] is cv)
-            else:
-                res = (k[1] == cv)
-        elif cv is None and (k in ('read', 'data') or (isinstance(k, tuple) and k[0] == 'bitvar')) and isinstance(e.ops[0], (ast.Is, ast.IsNot)):
-            res = False
-        if res is not None:
-            return ('const', res if isinstance(e.ops[0], (ast.Is, ast.Eq)) else (not res))
-    if not is_cfg_expr(e, env):
+
+def paren(t):
+    """Parenthesise a text when it is not atomic, via the ast printer (canonical)."""
+    try:
+        e = ast.parse(t, mode='eval').body
+    except SyntaxError:
+        return '(%s)' % t
+    if isinstance(e, (ast.Name, ast.Attribute, ast.Constant, ast.Subscript, ast.Call)):
+        return t
+    return '(%s)' % t
+
+
+def canon(text):
+    try:
+        return ast.unparse(ast.parse(text, mode='eval').body)
+    except SyntaxError:
+        return text
+
+
+# ---------------------------------------------------------------- formulas
+# formula: ('atom', text) | ('not', f) | ('and', [f]) | ('or', [f]) | ('nondet',) | ('const', bool) | ('bit', uid, neg)
+ATOM_INFO = {}      # atom text -> ('gt', term text, int) | ('lt', term, int) | ('eq', term, int) : integer theory
+
+
+def mk_atom(text, info=None):
+    text = canon(text)
+    if info is not None:
+        ATOM_INFO[text] = info
+    return ('atom', text)
+
+
+def mk_not(f):
+    if f[0] == 'const':
+        return ('const', not f[1])
+    if f[0] == 'not':
+        return f[1]
+    if f[0] == 'bit':
+        return ('bit', f[1], not f[2])
+    if f[0] == 'nondet':
+        return f
+    return ('not', f)
+
+
+def cmp_formula(op, l, r):
+    """Formula of `l <op> r` for two configuration-like values."""
+    lt, rt = vtext(l), vtext(r)
+    lc = l[1] if l[0] == CONST else None
+    rc = r[1] if r[0] == CONST else None
+    if l[0] == CONST and r[0] == CONST:
+        try:
+            res = {ast.Eq: lambda: lc == rc, ast.NotEq: lambda: lc != rc, ast.Lt: lambda: lc < rc, ast.LtE: lambda: lc <= rc,
+                   ast.Gt: lambda: lc > rc, ast.GtE: lambda: lc >= rc, ast.Is: lambda: lc is rc, ast.IsNot: lambda: lc is not rc,
+                   ast.In: lambda: lc in rc, ast.NotIn: lambda: lc not in rc}[type(op)]()
+            return ('const', bool(res))
+        except Exception:
+            return ('nondet',)
+    if lt is None or rt is None:
         return ('nondet',)
-    # canonicalise
-    if isinstance(e, ast.Compare) and len(e.ops) == 1:
-        op = e.ops[0]
-        l, r = u(e.left), u(e.comparators[0])
-        if isinstance(op, ast.IsNot):
-            return ('not', ('atom', '%s is %s' % (l, r)))
-        if isinstance(op, ast.NotEq):
-            return ('not', ('atom', '%s == %s' % (l, r)))
-        if isinstance(op, ast.Is):
-            return ('atom', '%s is %s' % (l, r))
-    return ('atom', u(e))
+    # len(X) compared with 0 / 1 : the truth value of X
+    def len_arg(t):
+        if t.startswith('len(') and t.endswith(')'):
+            try:
+                e = ast.parse(t, mode='eval').body
+            except SyntaxError:
+                return None
+            if isinstance(e, ast.Call) and isinstance(e.func, ast.Name) and e.func.id == 'len' and len(e.args) == 1:
+                return u(e.args[0])
+        return None
+    la = len_arg(lt)
+    if la is not None and isinstance(rc, int) and not isinstance(rc, bool):
+        truth = mk_atom(la)
+        if (isinstance(op, ast.Gt) and rc == 0) or (isinstance(op, ast.GtE) and rc == 1) or (isinstance(op, ast.NotEq) and rc == 0):
+            return truth
+        if (isinstance(op, ast.Eq) and rc == 0) or (isinstance(op, ast.Lt) and rc == 1) or (isinstance(op, ast.LtE) and rc == 0):
+            return mk_not(truth)
+    ra = len_arg(rt)
+    if ra is not None and isinstance(lc, int) and not isinstance(lc, bool):
+        flip = {ast.Lt: ast.Gt, ast.LtE: ast.GtE, ast.Gt: ast.Lt, ast.GtE: ast.LtE, ast.Eq: ast.Eq, ast.NotEq: ast.NotEq}.get(type(op))
+        if flip is not None:
+            return cmp_formula(flip(), r, l)
+    L, R = paren(lt), paren(rt)
+    isint = lambda c: isinstance(c, int) and not isinstance(c, bool)
+    if isinstance(op, (ast.Is, ast.IsNot)):
+        f = mk_atom('%s is %s' % (L, R))
+        return f if isinstance(op, ast.Is) else mk_not(f)
+    if isinstance(op, (ast.Eq, ast.NotEq)):
+        if isint(rc):
+            f = mk_atom('%s == %s' % (L, R), ('eq', L, rc))
+        elif isint(lc):
+            f = mk_atom('%s == %s' % (R, L), ('eq', R, lc))
+        else:
+            a, b = sorted([L, R])
+            f = mk_atom('%s == %s' % (a, b))
+        return f if isinstance(op, ast.Eq) else mk_not(f)
+    if isinstance(op, (ast.In, ast.NotIn)):
+        f = mk_atom('%s in %s' % (L, R))
+        return f if isinstance(op, ast.In) else mk_not(f)
+    # orderings: everything becomes  A > B
+    def gt(a, b, ac, bc):
+        A, B = paren(a), paren(b)
+        if isint(bc):
+            return mk_atom('%s > %s' % (A, B), ('gt', A, bc))
+        if isint(ac):
+            return mk_atom('%s > %s' % (A, B), ('lt', B, ac))     # c > T  ==  T < c
+        return mk_atom('%s > %s' % (A, B))
+    if isinstance(op, ast.Gt):
+        return gt(lt, rt, lc, rc)
+    if isinstance(op, ast.Lt):
+        return gt(rt, lt, rc, lc)
+    if isinstance(op, ast.LtE):
+        return mk_not(gt(lt, rt, lc, rc))
+    if isinstance(op, ast.GtE):
+        return mk_not(gt(rt, lt, rc, lc))
+    return ('nondet',)
+
+
+def truth(v):
+    k = v[0]
+    if k == CONST:
+        return ('const', bool(v[1]))
+    if k == CFG:
+        return mk_atom(v[1])
+    if k == BIT:
+        return ('bit', v[1], v[2])
+    if k == FORM:
+        return v[1]
+    if k in (STREAM, SUB, SELF):
+        return ('const', True)
+    if k == TUPLE:
+        return ('const', bool(v[1]))
+    return ('nondet',)
+
 
 def atoms_of(f, acc):
     if f[0] == 'atom':
@@ -137,6 +253,7 @@ def atoms_of(f, acc):
         for p in f[1]:
             atoms_of(p, acc)
 
+
 def evalf(f, asg):
     """3-valued: True/False/None"""
     k = f[0]
@@ -144,7 +261,7 @@ def evalf(f, asg):
         return f[1]
     if k == 'atom':
         return asg.get(f[1])
-    if k in ('nondet', 'bitvar'):
+    if k in ('nondet', 'bit'):
         return None
     if k == 'not':
         v = evalf(f[1], asg)
@@ -163,11 +280,26 @@ def evalf(f, asg):
             return False
         return None
 
+
 # ---------------------------------------------------------------- path enumeration
 class Abort(Exception):
     pass
 
+
 MAXPATHS = 4000
+OPQ_R = (OPAQUE, 'read')
+OPQ_D = (OPAQUE, 'data')
+NONE = (CONST, None)
+
+
+def assigned_names(stmts):
+    out = set()
+    for s in stmts:
+        for n in ast.walk(s):
+            if isinstance(n, ast.Name) and isinstance(n.ctx, (ast.Store, ast.Del)):
+                out.add(n.id)
+    return out
+
 
 class Enum:
     """Enumerate token paths of a method under a CONFIG assignment."""
@@ -180,9 +312,11 @@ class Enum:
         self.depth = 0
         self.noalign = noalign
         self.defcls = cls
+        self.uid = 0
+        self.opq = OPQ_R if side == 'dec' else OPQ_D
 
-    # state: (tokens tuple, env dict, done flag)
-    def run_method(self, fname, stream_name_hint=None, argmap=None):
+    # state: (tokens tuple, env dict, done flag)   done: False | True (returned) | 'raise' | 'break' | 'continue'
+    def run_method(self, fname):
         r = find_method(self.cls, fname)
         if r is None:
             self.notes.add('unresolved self.%s' % fname)
@@ -192,15 +326,11 @@ class Enum:
         env = {}
         params = [a.arg for a in f.args.args][1:]
         for p in params:
-            if p in ('encoder', 'decoder', '_encoder', '_decoder', '_'):
-                env[p] = 'stream'
-            elif argmap and p in argmap:
-                env[p] = argmap[p]
+            if p in ('encoder', 'decoder', '_encoder', '_decoder') or (p == params[-1] and len(params) == (2 if self.side == 'enc' else 1)):
+                env[p] = (STREAM,)
             else:
-                env[p] = 'data' if self.side == 'enc' else 'cfg'
-        states = [((), env, False)]
-        out = self.block(f.body, states)
-        return out
+                env[p] = OPQ_D if self.side == 'enc' else (CFG, p)
+        return self.block(f.body, [((), env, False)])
 
     def block(self, stmts, states):
         for s in stmts:
@@ -215,366 +345,683 @@ class Enum:
                 raise Abort('too many paths')
         return states
 
-    # -- expression: returns list of (tokens_to_add, resultkind) alternatives
-    def expr_tokens(self, e, env):
-        """Collect tokens for calls in e, evaluation order. Returns list of alternatives:
-        each (tuple(tokens), kind) where kind in {'cfg','data','read','stream', ('bitvar',id), 'fresh'}"""
-        alts = [((), None)]
-        for call in self.calls_in_order(e):
-            alts2 = []
-            for toks, _ in alts:
-                for t2, k2 in self.call_tokens(call, env):
-                    alts2.append((toks + t2, k2))
-            alts = alts2
+    # ------------------------------------------------------------ expressions
+    def bind(self, alts, fn):
+        out = []
+        for st, v in alts:
+            if st[2]:
+                out.append((st, v))
+            else:
+                out.extend(fn(st, v))
+        if len(out) > MAXPATHS:
+            raise Abort('too many paths')
+        return out
+
+    def ev_seq(self, exprs, st):
+        """Evaluate expressions left to right -> [(state, [values])]"""
+        alts = [(st, [])]
+        for e in exprs:
+            nxt = []
+            for s0, vs in alts:
+                if s0[2]:
+                    nxt.append((s0, vs))
+                    continue
+                for s1, v in self.ev(e, s0):
+                    nxt.append((s1, vs + [v]))
+            alts = nxt
         return alts
 
-    def calls_in_order(self, e):
-        res = []
-        class V(ast.NodeVisitor):
-            def visit_Call(s, n):
-                for a in n.args:
-                    s.visit(a)
-                for k in n.keywords:
-                    s.visit(k.value)
-                s.visit(n.func)
-                res.append(n)
-            def visit_ListComp(s, n):
-                res.append(n)
-            visit_DictComp = visit_SetComp = visit_GeneratorExp = visit_ListComp
-        V().visit(e)
-        return res
+    def branch(self, st, v):
+        """-> [(state, polarity)] feasible outcomes of testing value v in state st"""
+        f = truth(v)
+        atoms_of(f, self.atoms)
+        val = evalf(f, self.asg)
+        out = []
+        for pol in (True, False):
+            if val is not None and val != pol:
+                continue
+            s2 = st
+            if f[0] == 'bit':
+                want = 1 if (pol != f[2]) else 0
+                s2 = self.fix_bit(st, f[1], want)
+                if s2 is None:
+                    continue
+            out.append((s2, pol))
+        return out
 
-    def is_stream(self, e, env):
-        return isinstance(e, ast.Name) and env.get(e.id) == 'stream'
+    def fix_bit(self, st, uid, want):
+        toks, env, done = st
+        for i in range(len(toks) - 1, -1, -1):
+            t = toks[i]
+            if t[0] == 'BIT' and len(t) > 2 and t[2] == uid:
+                if t[1] == '*':
+                    return (toks[:i] + (('BIT', want, uid),) + toks[i + 1:], env, done)
+                if t[1] != want:
+                    return None
+                return st
+        return st       # the bit belongs to an enclosing frame: not tracked
 
-    def call_tokens(self, call, env):
-        # comprehension containing stream reads -> LOOP
-        if isinstance(call, (ast.ListComp, ast.DictComp, ast.SetComp, ast.GeneratorExp)):
-            inner = []
-            elts = [call.key, call.value] if isinstance(call, ast.DictComp) else [call.elt]
-            body_alts = [((), None)]
-            for el in elts:
-                nb = []
-                for toks, _ in body_alts:
-                    for t2, k2 in self.expr_tokens(el, dict(env)):
-                        nb.append((toks + t2, k2))
-                body_alts = nb
-            bodies = frozenset(t for t, _ in body_alts)
-            if bodies == frozenset([()]):
-                return [((), None)]
-            it = u(call.generators[0].iter)
-            return [((('LOOP', bodies),), 'read')]
+    def ev(self, e, st):
+        toks, env, done = st
+        opq = self.opq
+        if isinstance(e, ast.Constant):
+            return [(st, (CONST, e.value))]
+        if isinstance(e, ast.Name):
+            if e.id in env:
+                return [(st, env[e.id])]
+            if e.id == 'self':
+                return [(st, (SELF,))]
+            if e.id in CFG_BUILTINS:
+                return [(st, (CFG, e.id))]
+            r = self.defcls.mod.resolve_name(e.id)
+            if r is not None or hasattr(builtins, e.id):
+                return [(st, (CFG, e.id))]      # a module-level constant / class / function, a builtin
+            return [(st, opq)]
+        if isinstance(e, ast.Attribute):
+            def f(s1, b):
+                if b[0] == SELF:
+                    if e.attr not in ('encode', 'decode') and find_method(self.cls, e.attr) is not None:
+                        return [(s1, ('bound', b, e.attr))]
+                    return [(s1, (CFG, 'self.' + e.attr))]
+                if b[0] == CFG:
+                    return [(s1, (CFG, '%s.%s' % (paren(b[1]), e.attr)))]
+                if b[0] in (STREAM, SUB):
+                    if e.attr == '__class__':
+                        return [(s1, ('subclass',))]
+                    if b[0] == STREAM and (e.attr in ENC or e.attr in DEC or e.attr in ZERO or e.attr.endswith('_chunks') or e.attr == 'set_bit'):
+                        return [(s1, ('bound', b, e.attr))]
+                    return [(s1, opq)]
+                return [(s1, (OPAQUE, b[1] if b[0] == OPAQUE else opq[1]))]
+            return self.bind(self.ev(e.value, st), f)
+        if isinstance(e, ast.Subscript):
+            def f(s1, vs):
+                b, i = vs
+                if b[0] == TUPLE and i[0] == CONST and isinstance(i[1], int) and -len(b[1]) <= i[1] < len(b[1]):
+                    return [(s1, b[1][i[1]])]
+                if b[0] in (CFG, CONST) and is_cfgish(i):
+                    return [(s1, (CFG, '%s[%s]' % (paren(vtext(b)), vtext(i))))]
+                if b[0] == CFG and i == (OPAQUE, 'idx'):
+                    return [(s1, (CFG, '%s[_any_]' % paren(b[1])))]       # the current element of a configuration container
+                return [(s1, (OPAQUE, b[1]) if b[0] == OPAQUE else opq)]
+            idx = e.slice
+            if isinstance(idx, ast.Slice):
+                parts = [x for x in (idx.lower, idx.upper, idx.step) if x is not None]
+                return self.bind(self.ev_seq([e.value] + parts, st), lambda s1, vs: [(s1, (OPAQUE, vs[0][1]) if vs[0][0] == OPAQUE else opq)])
+            return self.bind(self.ev_seq([e.value, idx], st), f)
+        if isinstance(e, ast.BinOp):
+            def f(s1, vs):
+                l, r = vs
+                if l[0] == CONST and r[0] == CONST:
+                    try:
+                        c = compile(ast.Expression(ast.BinOp(ast.Constant(l[1]), e.op, ast.Constant(r[1]))), '<fold>', 'eval')
+                        return [(s1, (CONST, _fold(l[1], e.op, r[1])))]
+                    except Exception:
+                        pass
+                if is_cfgish(l) and is_cfgish(r):
+                    t = ast.unparse(ast.BinOp(ast.parse(vtext(l), mode='eval').body, e.op, ast.parse(vtext(r), mode='eval').body))
+                    return [(s1, (CFG, t))]
+                return [(s1, opq)]
+            return self.bind(self.ev_seq([e.left, e.right], st), f)
+        if isinstance(e, ast.UnaryOp):
+            def f(s1, v):
+                if isinstance(e.op, ast.Not):
+                    fo = mk_not(truth(v))
+                    if fo[0] == 'const':
+                        return [(s1, (CONST, fo[1]))]
+                    if fo[0] == 'bit':
+                        return [(s1, (BIT, fo[1], fo[2]))]
+                    return [(s1, (FORM, fo))]
+                if v[0] == CONST:
+                    try:
+                        return [(s1, (CONST, -v[1] if isinstance(e.op, ast.USub) else (+v[1] if isinstance(e.op, ast.UAdd) else ~v[1])))]
+                    except Exception:
+                        pass
+                if v[0] == CFG:
+                    return [(s1, (CFG, ast.unparse(ast.UnaryOp(e.op, ast.parse(v[1], mode='eval').body))))]
+                return [(s1, opq)]
+            return self.bind(self.ev(e.operand, st), f)
+        if isinstance(e, ast.BoolOp):
+            is_and = isinstance(e.op, ast.And)
+            def chain(values, s0):
+                first, rest = values[0], values[1:]
+                def f(s1, v):
+                    if not rest:
+                        return [(s1, v)]
+                    out = []
+                    for s2, pol in self.branch(s1, v):
+                        if pol == is_and:
+                            out.extend(chain(rest, s2))     # decided by the remaining operands
+                        else:
+                            out.append((s2, v if v[0] in (CONST, BIT) else (CONST, not is_and)))
+                    return out
+                return self.bind(self.ev(first, s0), f)
+            return chain(e.values, st)
+        if isinstance(e, ast.IfExp):
+            def f(s1, v):
+                out = []
+                for s2, pol in self.branch(s1, v):
+                    out.extend(self.ev(e.body if pol else e.orelse, s2))
+                return out
+            return self.bind(self.ev(e.test, st), f)
+        if isinstance(e, ast.Compare):
+            def f(s1, vs):
+                if len(e.ops) == 1:
+                    return [(s1, self.compare(e.ops[0], vs[0], vs[1]))]
+                fs = [truth(self.compare(op, a, b)) for op, a, b in zip(e.ops, vs, vs[1:])]
+                if all(x[0] == 'const' for x in fs):
+                    return [(s1, (CONST, all(x[1] for x in fs)))]
+                if any(x[0] == 'nondet' for x in fs):
+                    return [(s1, (FORM, ('nondet',)))]
+                return [(s1, (FORM, ('and', fs)))]
+            return self.bind(self.ev_seq([e.left] + list(e.comparators), st), f)
+        if isinstance(e, ast.Call):
+            return self.ev_call(e, st)
+        if isinstance(e, (ast.ListComp, ast.SetComp, ast.GeneratorExp, ast.DictComp)):
+            return self.ev_comp(e, st)
+        if isinstance(e, (ast.Tuple, ast.List)):
+            elts = [x.value if isinstance(x, ast.Starred) else x for x in e.elts]
+            def f(s1, vs):
+                if isinstance(e, ast.Tuple) and not any(isinstance(x, ast.Starred) for x in e.elts):
+                    return [(s1, (TUPLE, vs))]
+                if vs and all(is_cfgish(v) for v in vs):
+                    return [(s1, (CFG, '[%s]' % ', '.join(vtext(v) for v in vs)))]
+                return [(s1, (OPAQUE, 'fresh'))]
+            return self.bind(self.ev_seq(elts, st), f)
+        if isinstance(e, ast.Dict):
+            exprs = [x for kv in zip(e.keys, e.values) for x in kv if x is not None]
+            return self.bind(self.ev_seq(exprs, st), lambda s1, vs: [(s1, (OPAQUE, 'fresh'))])
+        if isinstance(e, ast.Set):
+            return self.bind(self.ev_seq(e.elts, st), lambda s1, vs: [(s1, (OPAQUE, 'fresh'))])
+        if isinstance(e, ast.JoinedStr):
+            exprs = [x.value for x in e.values if isinstance(x, ast.FormattedValue)]
+            return self.bind(self.ev_seq(exprs, st), lambda s1, vs: [(s1, opq)])
+        if isinstance(e, ast.Starred):
+            return self.ev(e.value, st)
+        if isinstance(e, ast.NamedExpr):
+            def f(s1, v):
+                e2 = dict(s1[1])
+                e2[e.target.id] = v
+                return [((s1[0], e2, s1[2]), v)]
+            return self.bind(self.ev(e.value, st), f)
+        if isinstance(e, ast.Lambda):
+            return [(st, opq)]
+        self.notes.add('unhandled expr %s' % type(e).__name__)
+        return [(st, opq)]
+
+    def compare(self, op, l, r):
+        # a read bit compared with 0 / 1 / True / False
+        for a, b, swapped in ((l, r, False), (r, l, True)):
+            if a[0] == BIT and b[0] == CONST and b[1] in (0, 1, True, False) and isinstance(op, (ast.Eq, ast.NotEq, ast.Is, ast.IsNot)):
+                same = isinstance(op, (ast.Eq, ast.Is))
+                neg = a[2] != (not ((b[1] in (1, True)) == same))
+                return (BIT, a[1], neg)
+        if isinstance(op, (ast.Is, ast.IsNot)) and ((l[0] == CONST and l[1] is None) or (r[0] == CONST and r[1] is None)):
+            other = r if (l[0] == CONST and l[1] is None) else l
+            if other[0] in (BIT, STREAM, SUB, TUPLE, SELF) or other == OPQ_R or (other[0] == OPAQUE and other[1] == 'fresh'):
+                return (CONST, isinstance(op, ast.IsNot))
+        if is_cfgish(l) and is_cfgish(r) or (l[0] == TUPLE and vtext(l)) or (r[0] == TUPLE and vtext(r)):
+            if vtext(l) is not None and vtext(r) is not None:
+                f = cmp_formula(op, l if l[0] != TUPLE else (CFG, vtext(l)), r if r[0] != TUPLE else (CFG, vtext(r)))
+                if f[0] == 'const':
+                    return (CONST, f[1])
+                return (FORM, f)
+        return (FORM, ('nondet',))
+
+    # ------------------------------------------------------------ calls
+    def ev_call(self, call, st):
         f = call.func
+        args = list(call.args) + [k.value for k in call.keywords]
         if isinstance(f, ast.Attribute):
-            recv, name = f.value, f.attr
-            # stream primitive
-            if self.is_stream(recv, env):
-                table = ENC if self.side == 'enc' else DEC
-                if name in table:
-                    if name == 'align' and self.noalign:
-                        return [((), None)]
-                    return [((self.prim(table[name], call, env),), 'read' if self.side == 'dec' else None)]
-                if name == 'set_bit' and self.side == 'enc':
-                    return [((('SETBIT',),), None)]
-                if name in ZERO:
-                    return [((), 'read' if name in ('peek_bit',) else 'cfg')]
-                if name == '__class__':
-                    return [((), 'sub')]
-                if name in ('append_length_determinant_chunks', 'read_length_determinant_chunks'):
-                    return [((('CHUNKSHDR',),), 'read')]
-                self.notes.add('unknown stream method %s' % name)
-                return [((('UNKNOWN', name),), None)]
-            # self.method(...stream...) -> inline
-            if isinstance(recv, ast.Name) and recv.id == 'self':
-                if any(self.is_stream(a, env) for a in call.args):
-                    return self.inline(name, call, env)
-                return [((), 'cfg')]
-            # super().encode(...)
-            if isinstance(recv, ast.Call) and isinstance(recv.func, ast.Name) and recv.func.id == 'super':
-                if any(self.is_stream(a, env) for a in call.args):
-                    return self.inline_super(name, call, env)
-                return [((), 'cfg')]
-            # child.encode(x, stream) / child.decode(stream) / encode_addition_group
-            if any(self.is_stream(a, env) for a in call.args) and name in ('encode', 'decode', 'encode_addition_group'):
-                return [((('CHILD',),), 'read')]
-            # child.encode(x, fresh_sub_encoder)
-            if name in ('encode', 'encode_addition_group') and any(isinstance(a, ast.Name) and env.get(a.id) == 'sub' for a in call.args):
-                return [((), None)]
-            # sub.align_always() etc on sub encoders: ignore
-            if isinstance(recv, ast.Name) and env.get(recv.id) == 'sub':
-                return [((), 'cfg')]
-        return [((), None)]
+            def after(s1, vs):
+                recv, avs = vs[0], vs[1:]
+                return self.do_call(call, recv, f.attr, avs, s1)
+            return self.bind(self.ev_seq([f.value] + args, st), after)
+        if isinstance(f, ast.Name) and f.id == 'super' and not call.args:
+            return [(st, ('super',))]
+        def after2(s1, vs):
+            fv, avs = vs[0], vs[1:]
+            return self.do_call(call, None, fv, avs, s1)
+        return self.bind(self.ev_seq([f] + args, st), after2)
 
-    def prim(self, kind, call, env):
-        a = call.args
+    def tok(self, st, t):
+        return (st[0] + (t,), st[1], st[2])
+
+    def do_call(self, call, recv, name, avs, st):
+        opq = self.opq
+        npos = len(call.args)
+        pos = avs[:npos]
+        kws = {k.arg: v for k, v in zip(call.keywords, avs[npos:]) if k.arg}
+        has_stream = any(v[0] == STREAM for v in avs)
+        if recv is None:
+            fv = name
+            if fv[0] == 'bound':
+                return self.do_call(call, fv[1], fv[2], avs, st)
+            if fv[0] == CFG and has_stream and '.' in fv[1]:
+                # a bound method of a configuration object held in a local: child.encode / child.decode
+                try:
+                    fe = ast.parse(fv[1], mode='eval').body
+                except SyntaxError:
+                    fe = None
+                if isinstance(fe, ast.Attribute):
+                    return self.do_call(call, (CFG, u(fe.value)), fe.attr, avs, st)
+            # Encoder() / encoder.__class__()
+            if fv[0] == 'subclass' or (fv[0] == CFG and fv[1] in ('Encoder',)):
+                return [(st, (SUB,))]
+            if fv[0] == CFG:
+                fn = fv[1]
+                if fn in ('int', 'bool') and len(pos) == 1 and pos[0][0] == BIT:
+                    return [(st, pos[0])]
+                if fn in ('bytearray', 'list', 'dict', 'set', 'bytes') and not has_stream:
+                    return [(st, (OPAQUE, 'fresh'))]
+                if has_stream or any(v[0] == SUB for v in avs):
+                    r = self.defcls.mod.resolve_name(fn) if fn.isidentifier() else None
+                    fdef = r if isinstance(r, ast.FunctionDef) else None
+                    if fdef is not None:
+                        return self.inline_fn(self.defcls, fdef, pos, kws, st, skip_self=False)
+                    if has_stream:
+                        self.notes.add('unknown function taking the stream: %s' % fn)
+                        return [(self.tok(st, ('UNKNOWN', fn)), opq)]
+                if all(is_cfgish(v) or (v[0] == TUPLE and vtext(v)) for v in avs) and not call.keywords:
+                    return [(st, (CFG, '%s(%s)' % (fn, ', '.join(vtext(v) for v in avs))))]
+            return [(st, opq)]
+        # ---- method calls
+        if recv[0] in (STREAM, SUB) and name == '__class__':
+            return [(st, (SUB,))]
+        if recv[0] == STREAM:
+            table = ENC if self.side == 'enc' else DEC
+            if name in table:
+                if name == 'align' and self.noalign:
+                    return [(st, NONE)]
+                t = self.prim(table[name], pos, kws, call)
+                if t[0] == 'BIT' and self.side == 'dec':
+                    self.uid += 1
+                    return [(self.tok(st, ('BIT', '*', self.uid)), (BIT, self.uid, False))]
+                return [(self.tok(st, t), OPQ_R if self.side == 'dec' else NONE)]
+            if name == 'set_bit' and self.side == 'enc':
+                return [(self.tok(st, ('SETBIT',)), NONE)]
+            if name in ZERO:
+                return [(st, OPQ_R if name == 'peek_bit' else (OPAQUE, 'pos'))]
+            if name in ('append_length_determinant_chunks', 'read_length_determinant_chunks'):
+                return [(self.tok(st, ('CHUNKSHDR',)), opq)]
+            self.notes.add('unknown stream method %s' % name)
+            return [(self.tok(st, ('UNKNOWN', name)), opq)]
+        if recv[0] == SUB:
+            return [(st, (OPAQUE, 'pos'))]
+        if recv[0] == SELF:
+            if has_stream or any(v[0] == SUB for v in avs):
+                r = find_method(self.cls, name)
+                if r is None:
+                    self.notes.add('unresolved self.%s' % name)
+                    return [(self.tok(st, ('UNRESOLVED', name)), opq)]
+                if not has_stream:
+                    return [(st, opq)]      # works on a sub-encoder only: its content is spliced in by `encoder += sub`
+                return self.inline_fn(r[0], r[1], pos, kws, st)
+            if all(is_cfgish(v) for v in avs) and not call.keywords:
+                return [(st, (CFG, 'self.%s(%s)' % (name, ', '.join(vtext(v) for v in avs))))]
+            return [(st, opq)]
+        if recv[0] == 'super':
+            chain = self.cls.mro()
+            if self.defcls in chain:
+                chain = chain[chain.index(self.defcls) + 1:]
+            for c in chain:
+                if name in c.methods:
+                    if has_stream:
+                        return self.inline_fn(c, c.methods[name], pos, kws, st)
+                    return [(st, opq)]
+            self.notes.add('super().%s unresolved' % name)
+            return [(self.tok(st, ('UNRESOLVED', 'super.' + name)), opq)]
+        # child.encode(x, stream) / child.decode(stream) / group.encode_addition_group(data, stream)
+        if has_stream:
+            if name in ('encode', 'decode', 'encode_addition_group'):
+                return [(self.tok(st, ('CHILD',)), OPQ_R if self.side == 'dec' else NONE)]
+            return [(self.tok(st, ('CHILD', name)), opq)]
+        if any(v[0] == SUB for v in avs):
+            return [(st, opq)]
+        if recv[0] in (CFG, CONST) and all(is_cfgish(v) for v in avs) and not call.keywords:
+            return [(st, (CFG, '%s.%s(%s)' % (paren(vtext(recv)), name, ', '.join(vtext(v) for v in avs))))]
+        if recv[0] == OPAQUE:
+            return [(st, (OPAQUE, recv[1]))]
+        return [(st, opq)]
+
+    def prim(self, kind, a, kws, call=None):
+        enc = self.side == 'enc'
+        def arg(i, *names):
+            if i < len(a):
+                return a[i]
+            for n in names:
+                if n in kws:
+                    return kws[n]
+            return self.opq
         if kind == 'BIT':
-            if self.side == 'enc' and a and isinstance(a[0], ast.Constant):
-                return ('BIT', int(a[0].value))
+            v = arg(0, 'bit')
+            if enc and v[0] == CONST and v[1] in (0, 1, True, False):
+                return ('BIT', int(v[1]))
             return ('BIT', '*')
         if kind == 'FIELD':
-            w = a[1] if self.side == 'enc' else a[0]
-            return ('FIELD', width_text(w, env))
+            return ('FIELD', wtext(arg(1, 'number_of_bits') if enc else arg(0, 'number_of_bits')))
         if kind == 'FIELDB':
-            if self.side == 'enc':
-                if a and isinstance(a[0], ast.Attribute) and a[0].attr == 'tag':
+            if enc:
+                v = arg(0)
+                if (v[0] == CFG and v[1].endswith('.tag')) or \
+                        (call is not None and call.args and isinstance(call.args[0], ast.Attribute) and call.args[0].attr == 'tag'):
                     return ('TAG',)
                 return ('FIELD', '*')
-            return ('FIELD', width_text(a[0], env, 8))
+            return ('FIELD', wtext(arg(0, 'number_of_bytes'), 8))
         if kind == 'FIELD8':
             return ('FIELD', '8')
         if kind == 'CWN':
-            args = a[1:] if self.side == 'enc' else a
-            return ('CWN',) + tuple(width_text(x, env) for x in args)
+            names = ('minimum', 'maximum', 'number_of_bits')
+            off = 1 if enc else 0
+            return ('CWN',) + tuple(wtext(arg(off + i, names[i])) for i in range(3))
         if kind == 'SKIP':
             return ('SKIP',)
         return (kind,)
 
-    def inline(self, name, call, env):
-        r = find_method(self.cls, name)
-        if r is None:
-            self.notes.add('unresolved self.%s' % name)
-            return [((('UNRESOLVED', name),), None)]
-        return self._inline_fn(r, call, env)
-
-    def inline_super(self, name, call, env):
-        # resolve in MRO after the class that defines current method: approximate: skip first definer
-        # resolve in the MRO after the class that defines the method being inlined
-        chain = self.cls.mro()
-        if self.defcls in chain:
-            chain = chain[chain.index(self.defcls) + 1:]
-        for c in chain:
-            if name in c.methods:
-                return self._inline_fn((c, c.methods[name]), call, env)
-        self.notes.add('super().%s unresolved' % name)
-        return [((('UNRESOLVED', 'super.' + name),), None)]
-
-    def _inline_fn(self, r, call, env):
-        c, f = r
+    def inline_fn(self, c, f, pos, kws, st, skip_self=True):
         self.depth += 1
-        if self.depth > 6:
+        if self.depth > 8:
             self.depth -= 1
-            return [((('DEEP',),), None)]
-        params = [a.arg for a in f.args.args][1:]
+            return [(self.tok(st, ('DEEP',)), self.opq)]
+        params = [a.arg for a in f.args.args]
+        if skip_self:
+            params = params[1:]
         cenv = {}
-        for p, a in zip(params, call.args):
-            if self.is_stream(a, env):
-                cenv[p] = 'stream'
-            elif isinstance(a, ast.Name) and env.get(a.id) == 'sub':
-                cenv[p] = 'stream_sub'
-            elif is_cfg_expr(a, env):
-                cenv[p] = 'cfg'
-            else:
-                cenv[p] = 'data' if self.side == 'enc' else 'read'
-        for p in params[len(call.args):]:
-            cenv[p] = 'cfg'
-        for kw in call.keywords:
-            if isinstance(kw.value, ast.Constant):
-                cenv[kw.arg] = ('const', kw.value.value)
-        # defaults for missing params that have constant defaults
+        for p, v in zip(params, pos):
+            cenv[p] = v
         defaults = f.args.defaults
+        dmap = {}
         if defaults:
-            for p, d in zip(params[-len(defaults):], defaults):
-                if p not in [x for x, _ in zip(params, call.args)] and p not in [k.arg for k in call.keywords]:
-                    if isinstance(d, ast.Constant):
-                        cenv[p] = ('const', d.value)
+            allp = [a.arg for a in f.args.args]
+            for p, d in zip(allp[-len(defaults):], defaults):
+                dmap[p] = d
+        for p in params[len(pos):]:
+            if p in kws:
+                cenv[p] = kws[p]
+            elif p in dmap and isinstance(dmap[p], ast.Constant):
+                cenv[p] = (CONST, dmap[p].value)
+            else:
+                cenv[p] = self.opq
+        if f.args.vararg is not None:
+            cenv[f.args.vararg.arg] = self.opq
+        for a, d in zip(f.args.kwonlyargs, f.args.kw_defaults):
+            cenv[a.arg] = kws.get(a.arg, (CONST, d.value) if isinstance(d, ast.Constant) else self.opq)
         saved = self.defcls
         self.defcls = c
-        states = self.block(f.body, [((), cenv, False)])
+        states = self.block(f.body, [(st[0], cenv, False)])
         self.defcls = saved
         self.depth -= 1
         res = []
+        seen = set()
         for toks, e2, done in states:
             if done == 'raise':
-                continue
-            rk = e2.get('__ret__', None)
-            res.append((toks, rk))
-        if not res:
-            return [((('RAISES',),), None)]
-        # dedupe
-        return list({(t, k if not isinstance(k, dict) else None) for t, k in res})
+                item = ((toks, st[1], 'raise'), self.opq)
+            else:
+                item = ((toks, st[1], False), e2.get('__ret__', NONE))
+            key = (item[0][0], item[0][2], repr(item[1]))
+            if key not in seen:
+                seen.add(key)
+                res.append(item)
+        return res
 
-    # -- statements
+    def ev_comp(self, e, st):
+        gen = e.generators[0]
+        elts = [e.key, e.value] if isinstance(e, ast.DictComp) else [e.elt]
+        def after(s1, itv):
+            chunks = bool(s1[0]) and s1[0][-1] == ('CHUNKSHDR',)
+            env2 = dict(s1[1])
+            self.bind_loop_target(gen.target, gen.iter, itv, env2)
+            alts = [((), env2, False)]
+            # conditions then (nested generators are treated as part of the body) the element expressions
+            body_states = []
+            def run(s0):
+                cur = [(s0, None)]
+                for cond in gen.ifs:
+                    nxt = []
+                    for s2, _ in cur:
+                        for s3, v in self.ev(cond, s2):
+                            for s4, pol in self.branch(s3, v):
+                                if pol:
+                                    nxt.append((s4, None))
+                                else:
+                                    body_states.append(s4)
+                    cur = nxt
+                for g2 in e.generators[1:]:
+                    cur = self.bind(cur, lambda s2, _v, g2=g2: self.ev(g2.iter, s2))
+                    for s2, _ in cur:
+                        self.bind_loop_target(g2.target, g2.iter, self.opq, s2[1])
+                for el in elts:
+                    cur = self.bind(cur, lambda s2, _v, el=el: self.ev(el, s2))
+                body_states.extend(s2 for s2, _ in cur)
+            run(alts[0])
+            bodies = frozenset(t for t, _, d in body_states if d != 'raise')
+            base = s1[0][:-1] if chunks else s1[0]
+            if chunks:
+                tk = base + (('CHUNKS', bodies),)
+            elif bodies == frozenset([()]) or not bodies:
+                tk = base
+            else:
+                tk = base + (('LOOP', bodies),)
+            return [((tk, s1[1], False), OPQ_R if self.side == 'dec' and tk != base else (OPAQUE, 'fresh'))]
+        return self.bind(self.ev(gen.iter, st), after)
+
+    def bind_loop_target(self, target, iter_expr, itv, env):
+        """Bind the loop variables: elements of a configuration container are configuration values named
+        after the container (`self.additions[*]`), whatever the variable is called."""
+        opq = self.opq
+        def elem(v):
+            if v[0] == CFG:
+                t = v[1]
+                for fn in ('reversed', 'sorted', 'list', 'tuple'):
+                    if t.startswith(fn + '(') and t.endswith(')'):
+                        t = t[len(fn) + 1:-1]
+                if t.startswith('range(') or t.startswith('enumerate('):
+                    return None
+                return (CFG, '%s[_any_]' % paren(t))
+            return None
+        if isinstance(target, ast.Name):
+            ev = elem(itv)
+            if ev is None and itv[0] == CFG and itv[1].startswith('range('):
+                ev = (OPAQUE, 'idx')
+            env[target.id] = ev if ev is not None else ((OPAQUE, itv[1]) if itv[0] == OPAQUE else opq)
+            return
+        if isinstance(target, (ast.Tuple, ast.List)):
+            if itv[0] == CFG and itv[1].startswith('enumerate(') and len(target.elts) == 2:
+                inner = itv[1][len('enumerate('):-1]
+                if isinstance(target.elts[0], ast.Name):
+                    env[target.elts[0].id] = (OPAQUE, 'idx')
+                self.bind_loop_target(target.elts[1], None, (CFG, inner), env)
+                return
+            for nm in ast.walk(target):
+                if isinstance(nm, ast.Name):
+                    if itv[0] == CFG:
+                        env[nm.id] = (CFG, '%s[*].%s' % (paren(itv[1]), nm.id)) if False else (OPAQUE, 'cfgpart')
+                    else:
+                        env[nm.id] = (OPAQUE, itv[1]) if itv[0] == OPAQUE else opq
+            return
+        for nm in ast.walk(target):
+            if isinstance(nm, ast.Name):
+                env[nm.id] = opq
+
+    # ------------------------------------------------------------ statements
+    def assign_target(self, tg, v, env):
+        if isinstance(tg, ast.Name):
+            env[tg.id] = v
+        elif isinstance(tg, (ast.Tuple, ast.List)):
+            if v[0] == TUPLE and len(v[1]) == len(tg.elts) and not any(isinstance(x, ast.Starred) for x in tg.elts):
+                for t2, v2 in zip(tg.elts, v[1]):
+                    self.assign_target(t2, v2, env)
+            else:
+                for nm in ast.walk(tg):
+                    if isinstance(nm, ast.Name):
+                        env[nm.id] = (OPAQUE, v[1]) if v[0] == OPAQUE else self.opq
+        # attribute / subscript stores do not change the local environment
+
     def stmt(self, s, st):
         toks, env, done = st
         if isinstance(s, ast.Expr):
             if isinstance(s.value, ast.Constant):
                 return [st]
-            return [(toks + t, env, False) for t, _ in self.expr_tokens(s.value, env)]
-        if isinstance(s, ast.Pass):
+            return [s1 for s1, _ in self.ev(s.value, st)]
+        if isinstance(s, (ast.Pass, ast.Delete, ast.Global, ast.Nonlocal, ast.Import, ast.ImportFrom)):
             return [st]
         if isinstance(s, (ast.Assign, ast.AnnAssign)):
-            value = s.value
+            if s.value is None:
+                return [st]
             targets = s.targets if isinstance(s, ast.Assign) else [s.target]
             out = []
-            for t, k in self.expr_tokens(value, env):
-                e2 = dict(env)
+            for s1, v in self.ev(s.value, st):
+                if s1[2]:
+                    out.append(s1)
+                    continue
+                e2 = dict(s1[1])
                 for tg in targets:
-                    for nm in ast.walk(tg):
-                        if isinstance(nm, ast.Name):
-                            e2[nm.id] = self.classify(value, env, k, t)
-                            e2.pop('~txt~' + nm.id, None)
-                            if e2[nm.id] == 'cfg' and isinstance(tg, ast.Name):
-                                e2['~txt~' + nm.id] = width_text(value, env)
-                out.append((toks + t, e2, False))
+                    # evaluate calls inside subscript/attribute targets (rare) is not needed for tokens
+                    self.assign_target(tg, v, e2)
+                out.append((s1[0], e2, False))
             return out
         if isinstance(s, ast.AugAssign):
+            if isinstance(s.target, ast.Name) and env.get(s.target.id, (None,))[0] == STREAM and isinstance(s.op, ast.Add):
+                return [s1 if s1[2] else self.tok(s1, ('OPENBODY',)) for s1, _ in self.ev(s.value, st)]
             out = []
-            # encoder += sub  -> OPENBODY
-            if isinstance(s.target, ast.Name) and env.get(s.target.id) == 'stream' and isinstance(s.op, ast.Add):
-                return [(toks + (('OPENBODY',),), env, False)]
-            for t, k in self.expr_tokens(s.value, env):
-                e2 = dict(env)
+            for s1, v in self.ev(s.value, st):
+                if s1[2]:
+                    out.append(s1)
+                    continue
+                e2 = dict(s1[1])
                 if isinstance(s.target, ast.Name):
-                    old = env.get(s.target.id)
-                    newk = self.classify(s.value, env, k, t)
-                    if old in ('read', 'data') or newk in ('read', 'data'):
-                        e2[s.target.id] = 'read' if self.side == 'dec' else 'data'
-                    elif isinstance(old, tuple):
-                        e2[s.target.id] = 'cfg' if newk in ('cfg', None) or isinstance(newk, tuple) else newk
-                out.append((toks + t, e2, False))
+                    old = e2.get(s.target.id, self.opq)
+                    if old[0] == CONST and v[0] == CONST:
+                        try:
+                            e2[s.target.id] = (CONST, _fold(old[1], s.op, v[1]))
+                        except Exception:
+                            e2[s.target.id] = self.opq
+                    elif is_cfgish(old) and is_cfgish(v) and old[0] != SELF:
+                        e2[s.target.id] = (CFG, ast.unparse(ast.BinOp(ast.parse(vtext(old), mode='eval').body, s.op, ast.parse(vtext(v), mode='eval').body)))
+                    else:
+                        e2[s.target.id] = self.opq if old[0] != OPAQUE else old
+                out.append((s1[0], e2, False))
             return out
         if isinstance(s, ast.Return):
             if s.value is None:
-                return [(toks, env, True)]
-            out = []
-            for t, k in self.expr_tokens(s.value, env):
                 e2 = dict(env)
-                e2['__ret__'] = ('const', s.value.value) if isinstance(s.value, ast.Constant) else k
-                out.append((toks + t, e2, True))
+                e2['__ret__'] = NONE
+                return [(toks, e2, True)]
+            out = []
+            for s1, v in self.ev(s.value, st):
+                if s1[2]:
+                    out.append(s1)
+                    continue
+                e2 = dict(s1[1])
+                e2['__ret__'] = v
+                out.append((s1[0], e2, True))
             return out
         if isinstance(s, ast.Raise):
             return [(toks, env, 'raise')]
+        if isinstance(s, ast.Assert):
+            return [st]
         if isinstance(s, ast.If):
-            return self.do_if(s, st)
+            out = []
+            for s1, v in self.ev(s.test, st):
+                if s1[2]:
+                    out.append(s1)
+                    continue
+                for s2, pol in self.branch(s1, v):
+                    out.extend(self.block(s.body if pol else s.orelse, [(s2[0], dict(s2[1]), False)]))
+            return out
         if isinstance(s, ast.For):
             return self.do_for(s, st)
         if isinstance(s, ast.While):
-            # treat as loop of body
-            body_states = self.block(s.body, [((), dict(env), False)])
+            e2 = dict(env)
+            for nm in assigned_names(s.body):
+                if nm in e2 and e2[nm][0] not in (STREAM, SUB):
+                    e2[nm] = self.opq
+            starts = []
+            exits = False
+            for s1, v in self.ev(s.test, ((), dict(e2), False)):
+                if s1[2]:
+                    continue
+                for s2, pol in self.branch(s1, v):
+                    if pol:
+                        starts.append(s2)
+            body_states = self.block(s.body, starts) if starts else []
             bodies = frozenset(t for t, _, d in body_states if d != 'raise')
-            return [(toks + (('WHILE', bodies),), env, False)]
+            returned = [(toks + t, e, d) for t, e, d in body_states if d is True]
+            res = [(toks + (('WHILE', bodies),) if bodies and bodies != frozenset([()]) else toks, e2, False)]
+            # a `return` inside the loop ends the method after some iterations
+            for t, e, d in returned:
+                res.append((toks + (('WHILE', bodies),) if bodies else toks, e, True))
+            return res
         if isinstance(s, ast.Try):
-            # body; handlers that 'pass' (swallow) -> also path where body aborted midway: approximate: body paths only
             states = self.block(s.body, [st])
             res = []
-            swallow = any(all(isinstance(x, ast.Pass) for x in h.body) for h in s.handlers)
             for t, e, d in states:
-                if d == 'raise' and swallow:
-                    res.append((t, e, False))
+                if d == 'raise' and s.handlers:
+                    # the handler that catches it is not decided: every handler is an alternative
+                    for h in s.handlers:
+                        e3 = dict(e)
+                        if h.name:
+                            e3[h.name] = self.opq
+                        res.extend(self.block(h.body, [(t, e3, False)]))
+                elif not d and s.orelse:
+                    res.extend(self.block(s.orelse, [(t, e, d)]))
                 else:
                     res.append((t, e, d))
+            if s.finalbody:
+                fin = []
+                for t, e, d in res:
+                    for t2, e2, d2 in self.block(s.finalbody, [(t, e, False)]):
+                        fin.append((t2, e2, d2 or d))
+                res = fin
             return res
         if isinstance(s, (ast.Break, ast.Continue)):
             return [(toks, env, 'break' if isinstance(s, ast.Break) else 'continue')]
-        if isinstance(s, ast.Delete):
+        if isinstance(s, ast.With):
+            return self.block(s.body, [st])
+        if isinstance(s, (ast.FunctionDef, ast.ClassDef)):
             return [st]
         self.notes.add('unhandled stmt %s' % type(s).__name__)
         return [st]
 
-    def classify(self, value, env, k, toks):
-        if isinstance(value, ast.Constant):
-            return ('const', value.value)
-        if isinstance(value, (ast.List, ast.Dict, ast.Set, ast.ListComp, ast.DictComp)) and not toks:
-            return 'data' if self.side == 'enc' else 'read'
-        if k == 'sub':
-            return 'sub'
-        # fresh sub-encoder
-        if isinstance(value, ast.Call):
-            f = value.func
-            if (isinstance(f, ast.Name) and f.id == 'Encoder') or (isinstance(f, ast.Attribute) and f.attr == '__class__'):
-                return 'sub'
-            if isinstance(f, ast.Call) and isinstance(f.func, ast.Attribute) and f.func.attr == '__class__':
-                return 'sub'
-        if u(value).endswith('.__class__()'):
-            return 'sub'
-        # single read_bit -> bitvar
-        if toks and len(toks) == 1 and toks[0][0] == 'BIT' and self.side == 'dec' and isinstance(value, ast.Call):
-            return ('bitvar', id(value))
-        if k == 'read' or any(t[0] not in ('ALIGN', 'ALIGN!') for t in toks):
-            return 'read' if self.side == 'dec' else 'data'
-        if is_cfg_expr(value, env):
-            return 'cfg'
-        # mentions data/read locals?
-        kinds = set()
-        for n in ast.walk(value):
-            if isinstance(n, ast.Name):
-                kk = env.get(n.id)
-                if kk in ('data', 'read'):
-                    kinds.add(kk)
-                if isinstance(kk, tuple) and kk[0] == 'bitvar':
-                    kinds.add('read')
-        if kinds:
-            return 'read' if self.side == 'dec' else 'data'
-        return 'data' if self.side == 'enc' else 'read'
-
-    def do_if(self, s, st):
-        toks, env, done = st
-        # tokens in the test (e.g. `if decoder.read_bit():`)
-        out = []
-        for t, k in self.expr_tokens(s.test, env):
-            toks2 = toks + t
-            f = formula(s.test, env)
-            atoms_of(f, self.atoms)
-            v = evalf(f, self.asg)
-            _t = s.test
-            _neg = False
-            if isinstance(_t, ast.UnaryOp) and isinstance(_t.op, ast.Not):
-                _t, _neg = _t.operand, True
-            if isinstance(_t, ast.Call) and isinstance(k, tuple) and k[0] == 'const':
-                v = bool(k[1]) != _neg
-            bit_annot = None
-            # `if decoder.read_bit():`  or `if bit:` / `if not decoder.read_bit()`
-            test = s.test
-            neg = False
-            if isinstance(test, ast.UnaryOp) and isinstance(test.op, ast.Not):
-                test, neg = test.operand, True
-            if self.side == 'dec' and t and t[-1][0] == 'BIT' and isinstance(test, ast.Call):
-                bit_annot = ('last', neg)
-            branches = []
-            if v is True or v is None:
-                branches.append((s.body, True))
-            if v is False or v is None:
-                branches.append((s.orelse, False))
-            for body, pol in branches:
-                tk = toks2
-                if bit_annot and tk and tk[-1][0] == 'BIT':
-                    val = 1 if (pol != bit_annot[1]) else 0
-                    tk = tk[:-1] + (('BIT', val),)
-                elif f[0] == 'bitvar' or (f[0] == 'not' and f[1][0] == 'bitvar'):
-                    # annotate most recent BIT '*' token
-                    negv = f[0] == 'not'
-                    val = 1 if (pol != negv) else 0
-                    for i in range(len(tk) - 1, -1, -1):
-                        if tk[i][0] == 'BIT' and tk[i][1] == '*':
-                            tk = tk[:i] + (('BIT', val),) + tk[i + 1:]
-                            break
-                out.extend(self.block(body, [(tk, dict(env), False)]))
-        return out
-
     def do_for(self, s, st):
-        toks, env, done = st
-        it = s.iter
-        hdr = self.expr_tokens(it, env)
         out = []
-        for t, k in hdr:
+        for s1, itv in self.ev(s.iter, st):
+            if s1[2]:
+                out.append(s1)
+                continue
+            toks, env, _ = s1
+            chunks = bool(toks) and toks[-1] == ('CHUNKSHDR',)
             e2 = dict(env)
-            chunks = bool(t) and t[-1] == ('CHUNKSHDR',)
-            loopvar_kind = 'cfg' if (is_cfg_expr(it, env) and not t) else ('read' if self.side == 'dec' else 'data')
-            for nm in ast.walk(s.target):
-                if isinstance(nm, ast.Name):
-                    e2[nm.id] = loopvar_kind
+            for nm in assigned_names(s.body):
+                if nm in e2 and e2[nm][0] not in (STREAM, SUB):
+                    e2[nm] = self.opq
+            self.bind_loop_target(s.target, s.iter, itv, e2)
             body_states = self.block(s.body, [((), dict(e2), False)])
             bodies = frozenset(bt for bt, _, d in body_states if d != 'raise')
+            base = toks[:-1] if chunks else toks
             if chunks:
-                tk = toks + t[:-1] + (('CHUNKS', bodies),)
+                tk = base + (('CHUNKS', bodies),)
+            elif bodies == frozenset([()]) or not bodies:
+                tk = base
             else:
-                if bodies == frozenset([()]) or not bodies:
-                    tk = toks + t
-                else:
-                    tk = toks + t + (('LOOP', bodies),)
-            # env after loop: merge -> keep e2 but mark assigned vars as data/read
+                tk = base + (('LOOP', bodies),)
             out.append((tk, e2, False))
+            for bt, be, d in body_states:
+                if d is True:       # `return` inside the loop body
+                    out.append((tk, be, True))
+            if s.orelse:
+                out = out[:-1 - sum(1 for _bt, _be, d in body_states if d is True)] + \
+                    self.block(s.orelse, [(tk, e2, False)]) + [(tk, be, True) for _bt, be, d in body_states if d is True]
         return out
+
+
+def _fold(a, op, b):
+    import operator
+    table = {ast.Add: operator.add, ast.Sub: operator.sub, ast.Mult: operator.mul, ast.FloorDiv: operator.floordiv, ast.Mod: operator.mod,
+             ast.LShift: operator.lshift, ast.RShift: operator.rshift, ast.BitOr: operator.or_, ast.BitAnd: operator.and_,
+             ast.BitXor: operator.xor, ast.Pow: operator.pow, ast.Div: operator.truediv}
+    if isinstance(op, (ast.Pow, ast.LShift)) and isinstance(b, int) and b > 4096:
+        raise ValueError('too large')
+    return table[type(op)](a, b)
 
 
 def final_paths(states):
@@ -586,10 +1033,16 @@ def final_paths(states):
     return res
 
 
+def strip_uid(t):
+    if t[0] == 'BIT' and len(t) > 2:
+        return t[:2]
+    return t
+
+
 def norm(toks):
     """normalise tokens: OPEN recognition, strip SKIP, nested normalisation"""
     out = []
-    toks = list(toks)
+    toks = [strip_uid(t) for t in toks]
     # deferred-bit idiom: a SETBIT patches the earliest literal BIT 0 of this path to 1
     while ('SETBIT',) in toks:
         i = toks.index(('SETBIT',))
@@ -661,29 +1114,62 @@ def dec_norm(p):
     return tuple(out)
 
 
+# ---------------------------------------------------------------- assignments
+def assignments(atoms):
+    """Consistent truth assignments of the atoms.  Atoms that compare one configuration term with integer
+    literals (`T > c`, `T < c`, `T == c`) are evaluated on representative values of T (every literal and
+    its neighbours); all other atoms are independent booleans."""
+    groups = {}
+    free = []
+    for a in atoms:
+        info = ATOM_INFO.get(a)
+        if info is not None:
+            groups.setdefault(info[1], []).append((a, info))
+        else:
+            free.append(a)
+    group_vectors = []
+    for term, members in sorted(groups.items()):
+        cs = sorted({info[2] for _, info in members})
+        cand = sorted({c + d for c in cs for d in (-1, 0, 1)})
+        vecs = []
+        for x in cand:
+            vec = tuple((a, (x > info[2]) if info[0] == 'gt' else (x < info[2]) if info[0] == 'lt' else (x == info[2])) for a, info in members)
+            if vec not in vecs:
+                vecs.append(vec)
+        group_vectors.append(vecs)
+    for fvals in itertools.product([True, False], repeat=len(free)):
+        base = dict(zip(free, fvals))
+        for combo in itertools.product(*group_vectors):
+            asg = dict(base)
+            for vec in combo:
+                asg.update(vec)
+            yield asg
 
 
-def analyse_pair(cls, model, enc_name='encode', dec_name='decode', max_atoms=10, cap=None):
+def collect_atoms(cls, model, names_sides, noalign, notes):
+    atoms = set()
+    for side, fn in names_sides:
+        Enum(cls, side, {}, atoms, notes, noalign).run_method(fn)
+    return sorted(atoms)
+
+
+def analyse_pair(cls, model, enc_name='encode', dec_name='decode', max_atoms=11, cap=None):
     """-> dict(status=..., problems=[(assignment, encoder path, decoder paths)], atoms=[...], assignments=n, notes=set)"""
     notes = set()
-    atoms = set()
     noalign = align_is_noop(cls, model)
-    for side, fn in (('enc', enc_name), ('dec', dec_name)):
-        try:
-            Enum(cls, side, {}, atoms, notes, noalign).run_method(fn)
-        except Abort as e:
-            return dict(status='ABORT ' + str(e), problems=[], atoms=[], assignments=0, notes=notes)
-    atoms = sorted(atoms)
+    try:
+        atoms = collect_atoms(cls, model, (('enc', enc_name), ('dec', dec_name)), noalign, notes)
+    except Abort as e:
+        return dict(status='ABORT ' + str(e), problems=[], atoms=[], assignments=0, notes=notes)
     if len(atoms) > max_atoms:
         return dict(status='TOO-MANY-ATOMS %d' % len(atoms), problems=[], atoms=atoms, assignments=0, notes=notes)
     problems = []
     nasg = 0
     enc_paths = 0
-    for vals in itertools.product([True, False], repeat=len(atoms)):
+    for asg in assignments(atoms):
         if cap is not None and nasg >= cap:
             notes.add('assignment enumeration capped at %d' % cap)
             break
-        asg = dict(zip(atoms, vals))
         nasg += 1
         try:
             E = final_paths(Enum(cls, 'enc', asg, set(), notes, noalign).run_method(enc_name))
@@ -702,15 +1188,12 @@ def analyse_pair(cls, model, enc_name='encode', dec_name='decode', max_atoms=10,
 def token_paths(cls, model, method, side):
     """Config-insensitive set of token paths of one method (used for sibling comparison)."""
     notes = set()
-    atoms = set()
     noalign = align_is_noop(cls, model)
-    Enum(cls, side, {}, atoms, notes, noalign).run_method(method)
-    atoms = sorted(atoms)
+    atoms = collect_atoms(cls, model, ((side, method),), noalign, notes)
     out = {}
-    if len(atoms) > 10:
+    if len(atoms) > 11:
         raise AnalysisError('too many config atoms in %s.%s' % (cls.qname, method))
-    for vals in itertools.product([True, False], repeat=len(atoms)):
-        asg = dict(zip(atoms, vals))
+    for asg in assignments(atoms):
         P = final_paths(Enum(cls, side, asg, set(), notes, noalign).run_method(method))
         if side == 'dec':
             P = {dec_norm(p) for p in P}
